@@ -9,7 +9,7 @@ import common, lbtool
 
 LEVEL = 'proof'
 PROP = 'C10'
-MODULES = ['Netpoll.Props.C10']
+MODULES = ['Netpoll.Props.C10', 'Netpoll.Tie.Poll']
 MANIFEST = dict(
     text='Lean 4 invariant proof over an interleaving model of one poller slot through any number of owners: for every sequence of alloc / register / fetch / dispatch / end-of-batch / close steps and stale Release calls, '
          'a fetched event is only ever dispatched to the callbacks of the owner it was fetched for (or dropped), no stale call takes a later owner\'s token, and a slot returns to the free chain only between batches with nothing installed. '
@@ -66,11 +66,11 @@ def run(rep):
     shards, seqs, nops = (16, 1500, 120) if rep.tier == 'thorough' else (8, 120, 80)
     with ThreadPoolExecutor(max_workers=16) as ex:
         results = list(ex.map(lambda i: shard(binary, os.path.join(wd, 's%d' % i), rep.seed * 1000 + i, seqs, nops, hazard=(i % 4 == 3)), range(shards)))
-    if any(r['problems'] for r in results) and not any(p[2] == 'impl-violates-spec' for r in results for p in r['problems']):
-        # model and implementation differ but no bystander was disturbed yet: directed search for a failing input
+    if (proof_broken or any(r['problems'] for r in results)) and not any(p[2] == 'impl-violates-spec' for r in results for p in r['problems']):
+        # a theorem / tie lemma broke, or model and implementation differ, but no bystander was disturbed yet: directed search for a failing input
         with ThreadPoolExecutor(max_workers=16) as ex:
             results += list(ex.map(lambda i: shard(binary, os.path.join(wd, 'h%d' % i), rep.seed * 1000 + 500 + i, 400, 40, hazard=True), range(16)))
-        rep.cov['directed_search'] = 'model/implementation disagreement: 16 x 400 sequences with the slot-reuse prelude'
+        rep.cov['directed_search'] = 'proof obligation / tie lemma broken or model/implementation disagreement: 16 x 400 sequences with the slot-reuse and hang-up-queue preludes'
     import glob
     for f in sorted(glob.glob(os.path.join(common.VERIF, 'corpus', PROP, '*.ops'))):
         cw = os.path.join(wd, 'corpus_' + os.path.basename(f)); os.makedirs(cw, exist_ok=True)
